@@ -105,15 +105,21 @@ ValCond(e) ==
   /\ e.i \in DOMAIN net /\ verdict[e.i] = "none"
   /\ WindowOK(e)
   /\ e.res \in {"true", "false", "err", "nomsg"}                              \* never a crash
-  /\ e.res = "nomsg" => ~pubs[e.i].ok
-  /\ LET c == Classify(e.i) IN
+  /\ (e.res = "nomsg") <=> ~pubs[e.i].ok
+  /\ pubs[e.i].ok =>
+       LET c == Classify(e.i) IN
        /\ (c = "invalid" /\ Judged("C02")) => e.res # "true"                  \* a root outside the window is refused
        /\ (c # "invalid" /\ Judged("C01")) => e.res = "true"                  \* a member's message within the window is accepted
        /\ (Judged("C03") /\ e.res = "true" /\ c # "invalid") => RealClass(e) = c   \* the log lookup on real values agrees
 ValStep(e) ==
-  /\ Validate(e.i)
-  /\ rlog' = IF Classify(e.i) = "valid" THEN rlog \cup {[nul |-> pubs[e.i].nul, x |-> pubs[e.i].x]} ELSE rlog
-  /\ UNCHANGED <<rootOf, nulOf, xOf, yOf, eOf, sidOf, pubs>>
+  IF pubs[e.i].ok
+  THEN /\ Validate(e.i)
+       /\ rlog' = IF Classify(e.i) = "valid" THEN rlog \cup {[nul |-> pubs[e.i].nul, x |-> pubs[e.i].x]} ELSE rlog
+       /\ UNCHANGED <<rootOf, nulOf, xOf, yOf, eOf, sidOf, pubs>>
+  ELSE \* the prover (not a member at the time) was refused: nothing reached the wire, nothing is relayed or logged
+       /\ verdict' = [verdict EXCEPT ![e.i] = "invalid"]
+       /\ UNCHANGED <<members, window, net, log, slashed, everreg, treeops, hist>>
+       /\ UNCHANGED <<rootOf, nulOf, xOf, yOf, eOf, sidOf, pubs, rlog>>
 
 \* --- slash
 SlashCond(e) ==
